@@ -1,7 +1,7 @@
 (* C06 — declarative definitions and statements.  Proved in C06/Proofs.v (the
    statements named …_stmt).  The universal claim about the SEARCH, [search_complete_stmt], needs
-   the mirror of the search (C06/Mirror.v) and lives in C06/Refuted.v: it is only STATED (C06 is
-   claimed partial) and, for the code as pinned, refuted there. *)
+   the mirror of the search (C06/Mirror.v) and lives in C06/Refuted.v (refuted there for the code as
+   pinned); for the code as it is now it is proved, with the cost bound it needs, in C06/Complete*.v. *)
 From Coq Require Import List Arith NArith Bool Lia Sorted.
 From GV Require Import Common.Outcome Base.Grammar LR.Automaton Repair.Semantics Repair.Spec Repair.Search C06.Model.
 Import ListNotations.
